@@ -20,6 +20,8 @@ WORDS = (
     "when", "running", "stage", "main", "extra", "shown", "kept", "target", "source", "worker",
     "record", "entry", "marker", "signal", "during", "setup", "applied", "later", "before", "each",
     "pass", "final", "result", "chosen", "given", "step", "long", "short",
+    # a few non-ASCII words: files are read and written in text mode, byte-level slips only show with these
+    "naïve", "größe", "µm",
 )
 RESERVED = frozenset(("return_type", "self", "cls", "argument_parser", "kwargs", "args")) | frozenset(keyword.kwlist)
 
